@@ -189,7 +189,13 @@ def run(tier, seed):
         if full and json_entries:
             r.nontrivial.add((tuple(sorted(full.items())),))
         unused_from_list = sorted(k for k, lab in full.items() if label_count(lab) == 0 and "autouse" not in lab)
-        if unused_from_list != sorted(set(json_entries)):
+        # keys under which one file defines the name twice share one label / one counter (finding E2)
+        from collections import Counter as _C
+        dupkeys = {k for k, n_ in _C((p, nm) for (p, pf) in ws.files.items() for (nm, _) in pf.defs).items() if n_ > 1}
+        diff_keys = set(unused_from_list) ^ set(json_entries)
+        if diff_keys and diff_keys <= dupkeys and "C20-E2-count-per-file-name" in {e["id"] for e in r.known}:
+            v.known("C20-E2-count-per-file-name", "counts are kept per (file, name): same-named definitions of one file share a counter")
+        elif unused_from_list != sorted(set(json_entries)):
             fail(f"`fixtures list` marks {unused_from_list} unused but `fixtures unused` lists {sorted(set(json_entries))}")
         # counts vs the library's references
         refs_by_key = {}
